@@ -522,12 +522,14 @@ def rule_response(ck):
 
 
 def run(ck):
+    from ..x_resolve import install_prepared
+    install_prepared(ck, __file__)
     ck.rule("C47.environ-total", "WSGIContainer.environ cannot raise: no raise/assert, frozen no-raise table, guarded pop/index, SINT on int()")
     ck.rule("C47.host-port", "host/port via httputil.split_host_and_port(request.host); SERVER_PORT = str(port) with protocol default when None")
     ck.rule("C47.cgi-keys", "required CGI/PEP 3333 keys present with the right provenance (PATH_INFO percent-decoded with plus=False)")
     ck.rule("C47.headers", "CONTENT_TYPE/LENGTH from the header map under a presence test; other headers as HTTP_<UPPER_WITH_UNDERSCORES> with unchanged values")
     ck.rule("C47.response", "default Content-Length/Content-Type/Server only when absent (case-insensitive); headers forwarded with add(); status/reason/body plumbing")
-    fi = normalise(ck.func(W, ENV))   # aliases (headers = request.headers) and literal-table loops are looked through
+    fi = ck.func(W, ENV)   # prepared: helpers inlined, aliases (headers = request.headers) and literal-table loops looked through
     n = rule_total(ck, fi)
     ck.floor("C47.environ-total", n, 1, "governed operations in environ")
     from ..x_optint import check_truthiness
